@@ -44,6 +44,8 @@ ERR_FOR = {
     'os.open': ['error:EACCES', 'error:ENOSPC'],
     'py_compile.compile': ['exc:OSError', 'exc:RuntimeError', 'exc:MemoryError'],
 }
+SURFACING_SITES = ('tempfile.mkstemp', 'tempfile.NamedTemporaryFile', 'os.write', 'file.write', 'os.close',
+                   'file.close', 'os.rename', 'os.replace')
 SIZES = [0, 1, 100, 4095, 4096, 70000]
 
 
@@ -118,6 +120,11 @@ def judge(cfg, dst, old, data, comments, outcome, exc, fault, site, V, cell):
     old_bytes = old.encode() if old is not None else None
     feat = dict(site=site, fault=(fault or 'none').split(':')[0], writer=cfg['writer'])
     if outcome == 'returned':
+        # "the failure surfaces as the package's writer error": a step of storing the text (creating, writing,
+        # closing, renaming the temporary file) that reported an error cannot end in a normal return - a
+        # failing close() is how deferred-write file systems report that the data did not reach the disk
+        if fault and fault.split(':')[0] in ('error', 'after') and site in SURFACING_SITES:
+            V('failure_not_surfaced', '%r: %s failed with %s, yet putData returned normally' % (cell, site, fault), **feat)
         if content != new_bytes:
             V('return_without_full_content', '%r: putData returned normally but the destination holds %s '
               '(expected %d bytes)' % (cell, 'nothing' if content is None else '%d bytes' % len(content),
